@@ -168,10 +168,25 @@ func main() {
 			panic(err)
 		}
 		w := bufio.NewWriter(os.Stdout)
+		hangs := map[string]int{}
 		for _, s := range specs {
 			fmt.Fprintf(w, "START %d\n", s.ID)
 			w.Flush()
+			if hangs[s.Comp] >= 1 {
+				// this component has hung in this process already: every further run would cost the
+				// full bound again; the failures found are reported, the rest is skipped
+				b, _ := json.Marshal(Result{Spec: s, Notes: []string{"skipped: component hung before in this batch"}, Skipped: true})
+				fmt.Fprintf(w, "RESULT %s\n", b)
+				w.Flush()
+				continue
+			}
 			r := runSpec(s)
+			for _, f := range r.Failures {
+				if strings.HasPrefix(f.Sig, "hang:") {
+					hangs[s.Comp]++
+					break
+				}
+			}
 			b, _ := json.Marshal(r)
 			fmt.Fprintf(w, "RESULT %s\n", b)
 			w.Flush()
@@ -301,6 +316,9 @@ func main() {
 				whats[i] = f.What
 			}
 			mon = &cf.Monitor{Signature: r.Spec.Comp + ":" + r.Failures[0].Sig, What: fmt.Sprintf("%s/%s k=%d sync=%v %v: %s", r.Spec.Comp, r.Spec.Scen, r.Spec.K, r.Spec.Sync, r.Spec.P, strings.Join(whats, "; "))}
+		}
+		if r.Skipped {
+			continue
 		}
 		if len(r.Comps) == 0 {
 			// the scenario could not be set up: report as a broken run (no case), visible in the notes
